@@ -145,6 +145,32 @@ func TestC09_Window(t *testing.T) {
 			withList.UnpublishedOperations = append([]*operation.AnchoredOperation{opUnderTest}, lib0.UnpublishedOperations...)
 			lib0 = &withList
 		}
+		if rapid.Bool().Draw(t, "sameRequestAtAnotherTimeFirst") {
+			// the window is checked against the time of each anchoring: the same signed request, anchored at another time, goes
+			// through the same applier first and gets the verdict of that time - which the later application does not inherit
+			var others []uint64
+			for _, cand := range []int64{from, until, from - 1, until + 1, from + int64(delta), from + int64(delta) + 1, int64(tm) + 1, int64(tm) - 1, 0, int64(tm) + 1000} {
+				if cand >= 0 && uint64(cand) != tm {
+					others = append(others, uint64(cand))
+				}
+			}
+			m2 := anchorMeta{Time: rapid.SampledFrom(others).Draw(t, "otherTime"), Number: 1, Canonical: "c0"}
+			want2, out2 := refApply(ref0, c, m2, p)
+			got2, err2 := stack.Applier.Apply(anchoredBytes(typ, c.Bytes, suffix, m2), lib0)
+			switch {
+			case out2 == outRefused:
+				if err2 == nil {
+					t.Fatalf("C09 out-of-window deactivate applied at t=%d: %s", m2.Time, desc)
+				}
+			case err2 != nil:
+				t.Fatalf("C09 operation refused at t=%d (%v) but the window rule gives %s: %s", m2.Time, err2, out2, desc)
+			default:
+				if cerr := compareModel(got2, want2, nil, lib0.UnpublishedOperations); cerr != nil {
+					t.Fatalf("C09 state after windowed operation at t=%d differs (%s expected): %v\n %s", m2.Time, out2, cerr, desc)
+				}
+			}
+			st.Label("same-request-at-two-times")
+		}
 		got, aerr := stack.Applier.Apply(opUnderTest, lib0)
 		switch {
 		case wantOut == outRefused:
